@@ -16,6 +16,9 @@ from scippneutron.conversion import tof as ktof
 
 def main():
     req = json.load(sys.stdin)
+    # earlier callers wrecked every graph the package handed them (see _poison.py); no effect unless state is shared
+    import _poison
+    _poison.poison_graph_factories()
     mn = const.m_n.value
     out = []
     for g in req['groups']:
